@@ -1504,7 +1504,8 @@ def unwrap(t: tp.Any) -> tp.Any:
     while lt is not t:
         if should_unwrap(t):
             lt = t
-            t = t.__args__[0]
+            # A bare `Final` / `ClassVar` says nothing about the type.
+            t = next(iter(getattr(t, "__args__", ())), tp.Any)
             continue
         if istypealiastype(t):
             tv = t.__value__
